@@ -7,7 +7,7 @@ PID = 'C03'
 STATS = G.STATS
 TOL_SPAN = F(1, 100000)
 PARTIAL = [
-    "A2.3 is modelled at specification level (derivatives of the unit-control-point curves); that the code's table equals it is the exact correspondence; rows-sum-to-zero and row 0 = A2.2 are proved for the model",
+    "A2.3: the literal transcription (basisFunsDersA23, compared with helpers.basis_function_ders by the C02 stream bders23) is proved equal to the specification table in C02; rows-sum-to-zero and row 0 = A2.2 are proved for that table",
     "A2.4 (basis_function_one) = Cox-de Boor is proved on the domain except where it is false as worded: the last function at the last knot returns 1 (half-open Cox-de Boor: 0; proved equal to the A2.2 entry of the last span for end-clamped vectors), and the first function at U[0] returns 1 also outside the domain of an unclamped vector / for start multiplicity > p+1 (hypotheses U p <= u, U 0 < U (p+1))",
     "A2.5 (basis_function_ders_one, literal model) = column of the A2.3 specification table is proved for order <= degree on half-open spans; at the last knot A2.5 returns zeros (no boundary special case, unlike A2.4) - covered only by the closed form",
 ]
